@@ -195,6 +195,26 @@ theorem replace_flat_unchanged {κ : Type} (f : Pt K → κ → Pt K → List (P
     (h : ∀ c ∈ cs, c.isFlat = true) : flattenCmds f cur cs = cs :=
   flatten_flat_id f cs h cur
 
+/-- The splice in `Path.replace` never starts a new subpath: `p.LineTo(end)` is skipped only when
+LineTo's test says the replacement already ends on `end` (`skip`), `Join` continues the subpath when
+its test says the points coincide (`eq`); as long as `skip a b → eq a b` (in the library both are
+`Point.Equals`, tolerance Epsilon) and `eq` is reflexive, the number of subpaths of
+Flatten / ReplaceArcs / XMonotone equals that of the input — for ANY replacement callbacks, including
+ones whose recomputed end point misses the stored end point (elliptic arcs at large coordinates). -/
+theorem replace_preserves_subpath_count {κ : Type} (skip eq : Pt K → Pt K → Bool)
+    (f : Pt K → κ → Pt K → List (Pt K))
+    (hse : ∀ a b, skip a b = true → eq a b = true) (hrefl : ∀ a, eq a a = true)
+    (cur : Pt K) (cs : List (Cmd K κ)) :
+    subpathCount (replaceCmds skip eq f cur cs) = subpathCount cs :=
+  replaceCmds_count skip eq f hse hrefl cs cur
+
+/-- the coupling hypothesis is needed: a skip test that is laxer than Join's test (here: always skip,
+exact equality in Join) splits `M(0,0) K(2,0) L(3,0)` whose replacement ends at (1,0) into two subpaths -/
+example : subpathCount (replaceCmds (fun _ _ => true) (fun a b => decide (a = b))
+      (fun _ (_ : Unit) _ => [Pt.mk (1 : ℚ) 0]) (Pt.mk 0 0)
+      [Cmd.M (Pt.mk 0 0), Cmd.Curve () (Pt.mk 2 0), Cmd.L (Pt.mk 3 0)]) = 2 := by
+  decide
+
 /-! ## 5. x-monotone splitting is exact -/
 
 /-- `xmonotoneQuadraticBezier` splits at t = (p0.x − p1.x)/(p0.x − 2p1.x + p2.x): that is the root of
